@@ -61,7 +61,7 @@ func c07SentinelWait() time.Duration {
 	return 15 * time.Second
 }
 
-var c07Cols = []string{"a", "b", "t", "Aa", "BB"} // "Aa" and "BB" have equal 31-polynomial hashes: SUM(Aa) / SUM(BB) once shared a placeholder
+var c07Cols = []string{"a", "b", "t", "Aa", "BB", "T"} // "Aa" and "BB" have equal 31-polynomial hashes: SUM(Aa) / SUM(BB) once shared a placeholder; "t" / "T": column names are case-sensitive
 
 // ---------------------------------------------------------------- AST
 
@@ -253,7 +253,7 @@ func (q *c07Query) sql() string {
 
 type c07Row struct {
 	d    string
-	vals []float64 // a, b, t, Aa, BB
+	vals []float64 // a, b, t, Aa, BB, T
 }
 
 func (a *c07Arg) eval(r c07Row) float64 {
@@ -463,9 +463,10 @@ func c07GenRows(rng *rand.Rand, keys []string, n int) []c07Row {
 	tv := []float64{10, 20, 30, 50}
 	xv := []float64{1, 2, 5}
 	yv := []float64{100, 200, -3}
+	uv := []float64{7, 11, 13}
 	rows := make([]c07Row, n)
 	for i := range rows {
-		rows[i] = c07Row{d: keys[rng.Intn(len(keys))], vals: []float64{av[rng.Intn(len(av))], bv[rng.Intn(len(bv))], tv[rng.Intn(len(tv))], xv[rng.Intn(len(xv))], yv[rng.Intn(len(yv))]}}
+		rows[i] = c07Row{d: keys[rng.Intn(len(keys))], vals: []float64{av[rng.Intn(len(av))], bv[rng.Intn(len(bv))], tv[rng.Intn(len(tv))], xv[rng.Intn(len(xv))], yv[rng.Intn(len(yv))], uv[rng.Intn(len(uv))]}}
 	}
 	// every key of the batch appears at least once when there is room
 	for i, k := range keys {
@@ -677,7 +678,7 @@ func (c07) Gen(rng *rand.Rand, tier string, idx int) Case {
 		if q.limit == 0 {
 			mode = "direct"
 		} else {
-			for _, cand := range [][]float64{{1000, 1000, 1000, 1000, 1000}, {0, 0, 0, 0, 0}, {-1000, -1000, -1000, -1000, -1000}, {1, 2, 3, 4, 5}, {1000, 0, 0, 0, 0}, {0, 0, 1000, 0, 1000}, {2, 0.5, 10, 1, 100}, {0, 0, 0, 1000, 0}, {0, 0, 0, 0, 1000}} {
+			for _, cand := range [][]float64{{1000, 1000, 1000, 1000, 1000, 1000}, {0, 0, 0, 0, 0, 0}, {-1000, -1000, -1000, -1000, -1000, -1000}, {1, 2, 3, 4, 5, 6}, {1000, 0, 0, 0, 0, 0}, {0, 0, 1000, 0, 1000, 0}, {2, 0.5, 10, 1, 100, 7}, {0, 0, 0, 1000, 0, 0}, {0, 0, 0, 0, 1000, 0}, {0, 0, 0, 0, 0, 1000}} {
 				rows := make([]c07Row, q.n)
 				for i := range rows {
 					rows[i] = c07Row{d: c07Sentinel, vals: cand}
@@ -766,6 +767,12 @@ func c07ParseVal(tok string) (interface{}, bool) {
 		n, err := strconv.Atoi(tok[2:])
 		if err != nil {
 			panic("bad int token " + tok)
+		}
+		return n, true
+	case strings.HasPrefix(tok, "u:"):
+		n, err := strconv.ParseUint(tok[2:], 10, 64)
+		if err != nil {
+			panic("bad uint token " + tok)
 		}
 		return n, true
 	case strings.HasPrefix(tok, "s:"):
@@ -1020,7 +1027,10 @@ func c07GenSorter(rng *rand.Rand) Case {
 				}
 				switch kinds[i] {
 				case "num":
-					if rng.Intn(2) == 0 {
+					if rng.Intn(5) == 0 {
+						// unsigned 64-bit values on both sides of 2^63, among small ones
+						op = append(op, "u:"+[]string{"9223372036854775808", "13835058055282163712", "18446744073709551615", "77", "1099511627776"}[rng.Intn(5)])
+					} else if rng.Intn(2) == 0 {
 						op = append(op, "i:"+strconv.Itoa(rng.Intn(5)-2))
 					} else {
 						op = append(op, c07Fbits([]float64{-1.5, 0, 0.5, 1, 2, 1e9}[rng.Intn(6)]))
